@@ -168,7 +168,7 @@ def copy_prog(rng, pid, collide):
 
 
 def validate(ctx, trace, tag):
-    r = vlib.tlc("TreesTrace.tla", "TreesTrace.cfg", workers=1, timeout=3000, env={"TRACE": trace},
+    r = vlib.tlc("TreesTrace.tla", "TreesTrace.cfg", workers=1, timeout=12000, env={"TRACE": trace},
                  metadir=os.path.join(ctx.out, "tv-" + tag), heap="8g")
     if r.error or r.violated or r.printed("TOOLERR"):
         open(os.path.join(ctx.out, "tv-%s.log" % tag), "w").write(r.out)
@@ -200,7 +200,7 @@ def run(ctx):
 
     def add(p):
         progs[p["id"]] = p
-    n = {"merge": 24, "rewrite": 24, "repair": 18, "copy": 16} if q else {"merge": 600, "rewrite": 600, "repair": 400, "copy": 300}
+    n = {"merge": 24, "rewrite": 24, "repair": 18, "copy": 16} if q else {"merge": 2000, "rewrite": 2000, "repair": 1200, "copy": 900}
     for i in range(n["merge"]):
         add(merge_prog(rng, "c12-%d-m%d" % (ctx.seed, i), odd=i % 2 == 0))
     for i in range(n["rewrite"]):
